@@ -760,10 +760,15 @@ impl<E: Effect> Executor<E> {
         // Store the result in the process's awaiting map (retaining as it enters storage).
         if self.get_process(awaiter).is_some() {
             self.retain(&injected_result);
-            self.get_process_mut(awaiter)
+            let replaced = self
+                .get_process_mut(awaiter)
                 .unwrap()
                 .awaiting
                 .insert(awaited, Some(injected_result));
+            // A result delivered again (or after a re-await) replaces the stored one; release it.
+            if let Some(Some(old)) = replaced {
+                self.release(&old);
+            }
         }
 
         // Re-queue awaiter to retry its Select instruction
@@ -2211,8 +2216,15 @@ impl<E: Effect> Executor<E> {
 
         // If we found PIDs, register awaits before processing sources
         if !pid_targets.is_empty() {
+            // Re-awaiting a process replaces its earlier entry; release the result it held.
+            let mut replaced = Vec::new();
             for target in &pid_targets {
-                process.awaiting.insert(*target, None);
+                if let Some(Some(old)) = process.awaiting.insert(*target, None) {
+                    replaced.push(old);
+                }
+            }
+            for old in &replaced {
+                self.release(old);
             }
 
             self.mark_selecting(pid);
